@@ -171,7 +171,7 @@ func endsInReturn(b *ast.BlockStmt) bool {
 // cmpLit matches `<lhs text> <op> <int literal>` and returns the literal.
 func cmpLit(e ast.Expr, lhs string, op token.Token) (int64, bool) {
 	be, ok := e.(*ast.BinaryExpr)
-	if !ok || be.Op != op || src(be.X) != lhs {
+	if !ok || be.Op != op || strings.ReplaceAll(src(be.X), " ", "") != strings.ReplaceAll(lhs, " ", "") {
 		return 0, false
 	}
 	return evalInt("", be.Y, 0)
